@@ -53,11 +53,11 @@ static void drv_apply(const vop_t *op, jb_t *res)
     memset(&it, 0x5a, sizeof it);
     switch (op->k) {
     case 0:
-        a_begin(a[3] ? 1UL : 0UL); r = cstl_map_insert(&M, kobj(a[0], a[1]), &VO[a[2]], &it); a_end();
+        a_begin(a[3] ? 1UL : 0UL); r = cstl_map_insert(&M, kobj(a[0], a[1]), &VO[a[2]], a[4] ? NULL : &it); a_end();
         jb_printf(res, ",\"ret\":%d", r); it_json(res, &it);
         break;
     case 1: a_begin(0); cstl_map_find(&M, kobj(a[0], 1), &it); a_end(); jb_puts(res, ",\"ret\":0"); it_json(res, &it); break;
-    case 2: a_begin(0); r = cstl_map_erase(&M, kobj(a[0], 2), &it); a_end(); jb_printf(res, ",\"ret\":%d", r); it_json(res, &it); break;
+    case 2: a_begin(0); r = cstl_map_erase(&M, kobj(a[0], 2), a[4] ? NULL : &it); a_end(); jb_printf(res, ",\"ret\":%d", r); it_json(res, &it); break;
     case 3: {
         cstl_map_iterator_t f;
         a_begin(0);
@@ -77,9 +77,9 @@ static void drv_opjson(const vop_t *op, jb_t *b)
 {
     const int *a = op->a;
     switch (op->k) {
-    case 0: jb_printf(b, "\"op\":\"insert\",\"k\":%d,\"ko\":%d,\"vo\":%d,\"fail\":%s", a[0], a[1], a[2], a[3] ? "true" : "false"); break;
+    case 0: jb_printf(b, "\"op\":\"insert\",\"k\":%d,\"ko\":%d,\"vo\":%d,\"fail\":%s,\"noit\":%s", a[0], a[1], a[2], a[3] ? "true" : "false", a[4] ? "true" : "false"); break;
     case 1: jb_printf(b, "\"op\":\"find\",\"k\":%d", a[0]); break;
-    case 2: jb_printf(b, "\"op\":\"erase\",\"k\":%d", a[0]); break;
+    case 2: jb_printf(b, "\"op\":\"erase\",\"k\":%d,\"noit\":%s", a[0], a[4] ? "true" : "false"); break;
     case 3: jb_printf(b, "\"op\":\"erasei\",\"k\":%d", a[0]); break;
     case 4: jb_printf(b, "\"op\":\"clear\",\"cb\":%s", a[0] ? "true" : "false"); break;
     case 5: jb_puts(b, "\"op\":\"size\""); break;
@@ -144,8 +144,12 @@ static int drv_enum(vop_t *ops, int max)
     int no = 0, k, ko, vo, f;
     (void)max;
     for (k = 1; k <= NK; k++) {
-        for (ko = 1; ko <= 2; ko++) for (vo = 1; vo <= 2; vo++) for (f = 0; f < (FAULTS ? 2 : 1); f++) ADD(0, k, ko, vo, f);
+        for (ko = 1; ko <= 2; ko++) for (vo = 1; vo <= 2; vo++) for (f = 0; f < (FAULTS ? 2 : 1); f++) {
+            ADD(0, k, ko, vo, f);
+            if (PROBES) { vop_t o_ = { 0, { k, ko, vo, f, 1 } }; ops[no++] = o_; }     /* no iterator wanted back */
+        }
         ADD(2, k, 0, 0, 0);
+        if (PROBES) { vop_t o_ = { 2, { k, 0, 0, 0, 1 } }; ops[no++] = o_; }
         if (PROBES) { ADD(1, k, 0, 0, 0); ADD(3, k, 0, 0, 0); }
     }
     ADD(4, 1, 0, 0, 0);
@@ -156,9 +160,9 @@ static int drv_random(unsigned long (*rnd)(void), vop_t *op)
 {
     unsigned long r = rnd() % 100; int k = 1 + (int)(rnd() % (unsigned)NK);
     if (a_nblk > A_MAX - 8) return 0;
-    if (r < 45) { op->k = 0; op->a[0] = k; op->a[1] = 1 + (int)(rnd() & 1); op->a[2] = 1 + (int)(rnd() & 1); op->a[3] = FAULTS && rnd() % 8 == 0; }
+    if (r < 45) { op->k = 0; op->a[0] = k; op->a[1] = 1 + (int)(rnd() & 1); op->a[2] = 1 + (int)(rnd() & 1); op->a[3] = FAULTS && rnd() % 8 == 0; op->a[4] = rnd() % 4 == 0; }
     else if (r < 60) { op->k = 1; op->a[0] = k; }
-    else if (r < 80) { op->k = 2; op->a[0] = k; }
+    else if (r < 80) { op->k = 2; op->a[0] = k; op->a[4] = rnd() % 4 == 0; }
     else if (r < 92) { op->k = 3; op->a[0] = k; }
     else if (r < 94) { op->k = 4; op->a[0] = (int)(rnd() & 1); }
     else { op->k = 5; }
